@@ -84,8 +84,8 @@ impl Story {
                 )?;
                 return Ok(true);
             } else {
-                self.get_state_mut()
-                    .set_diverted_pointer(current_divert.get_target_pointer());
+                let target_pointer = current_divert.get_target_pointer()?;
+                self.get_state_mut().set_diverted_pointer(target_pointer);
             }
 
             if current_divert.pushes_to_stack {
@@ -667,10 +667,8 @@ impl Story {
         {
             let found_value: Rc<Value>; // Explicit read count value
             if var_ref.path_for_count.is_some() {
-                let container = var_ref.get_container_for_count();
-                let count = self
-                    .get_state_mut()
-                    .visit_count_for_container(container.as_ref().unwrap());
+                let container = var_ref.get_container_for_count()?;
+                let count = self.get_state_mut().visit_count_for_container(&container);
                 found_value = Rc::new(Value::new::<i32>(count));
             }
             // Normal variable reference
